@@ -157,6 +157,18 @@ def rulesets(tier):
     for sb, sc in ((False, False), (False, True)):
         types_l, base_l = R.ref_loaded(long, sb, sc)
         out.append(('two-digit lengths loaded from disk, all_lower=%s' % sc, types_l, base_l, (long, sb, sc)))
+    if tier == 'thorough':
+        # more loader-produced grammars: three terminal sets x five structure lists x the four flag combinations
+        glists = [[('A1', .5), ('M', .3), ('D1', .2)], [('A2A1', .4), ('D1D1', .3), ('Y1O1', .3)], [('M', .6), ('A1D1A1', .4)],
+                  [('K4X1', .5), ('A1O1A2', .25), ('D2', .25)], [('D1', .25), ('A1', .25), ('O1', .25), ('Y1', .25)]]
+        for ti in (0, 1, 2):
+            for gi, gl in enumerate(glists):
+                for sb, sc in ((False, False), (True, False), (False, True), (True, True)):
+                    dk = dict(D.TERMINALS[ti])
+                    dk.update(grammar=gl, prince=D.PRINCE)
+                    types_l, base_l = R.ref_loaded(dk, sb, sc)
+                    if base_l:
+                        out.append(('terminal set %d, structure list %d, skip_brute=%s all_lower=%s' % (ti, gi, sb, sc), types_l, base_l, (dk, sb, sc)))
     out.append(('renormalised (skip_brute style)', {'D1': t['D1'], 'O1': t['O1']}, [(.3 / .7, ['D1']), (.25 / .7, ['O1']), (.15 / .7, ['D1', 'O1'])]))
     return out
 
